@@ -211,7 +211,7 @@ Definition is_err {A} (m : outcome A) : bool := match m with Err _ => true | _ =
 Definition unexplained_run (fl : flavour) (p : block IL) (run : Z * iregs * ires * ires) : bool :=
   match run with
   | (t, r, before, after) =>
-      negb (ires_eqb before after) && negb (is_err (run_struct IL FUEL (Strict fl) p (st0 t r)))
+      negb (ires_eqb before after) && negb (is_err (run_struct IL FUEL (Strict true fl) p (st0 t r)))
   end.
 Definition unexplained (c : c06case) : bool :=
   match c with KProg fl p _ runs => existsb (unexplained_run fl p) runs end.
@@ -270,7 +270,7 @@ Definition run_tag (fl : flavour) (p : block IL) (run : Z * iregs * ires * ires)
   match run with
   | (t, r, before, after) =>
       if ires_eqb before after then 0%N
-      else match run_struct IL FUEL (Strict fl) p (st0 t r) with
+      else match run_struct IL FUEL (Strict true fl) p (st0 t r) with
            | Err tag => N.of_nat tag
            | _ => 1%N
            end
